@@ -240,6 +240,8 @@ fn main() {
     // contexts: how the literal meets the type.  {T} = type, {V} = literal
     let mut contexts: Vec<(&str, &str)> = vec![
         ("annotated local", "main :: () { x : {T} = {V}; }"),
+        ("unary plus", "main :: () { x : {T} = +{V}; }"),
+        ("unary plus via a weakly typed local", "main :: () { w := +{V}; x : {T} = w; }"),
         ("optional", "main :: () { x : ?{T} = {V}; }"),
         ("distinct", "D :: distinct {T};\nmain :: () { x : D = {V}; }"),
         ("via a weakly typed local", "main :: () { x := {V}; y : {T} = x; }"),
